@@ -9,10 +9,12 @@
         mode 0 -> [TI agree; TI n; TI k; k flags (1 = this dump request got the same answer)]
     [TB "AOFRESTART"; TI c; TI t; TI k; k dump request frames]
         the server process is restarted on the same directory:
-        -> [TI 0] when start-up fails, else [TI 1; k dump replies] from a new connection c
+        -> [TI 1; k dump replies] from a new connection c ([TI 0] = start-up failed: never, after 39510e9)
+    The plain ops go through Model/RunLua.v (script cache: SCRIPT LOAD / EVALSHA).  The second
+    server of AOFREPLAY has an empty script cache: EVALSHA answers NOSCRIPT there.
     [TB "CMDQ"; TI c; TI t; request frame]    -> []   (the command runs, its reply is not compared) *)
 From Ferrous Require Import Base.Bytes Model.Resp Model.Types Model.Server Model.Conn Model.RunBase
-  Model.RunSrv Model.Aof.
+  Model.RunSrv Model.RunLua Model.Aof.
 Open Scope Z_scope.
 
 Definition tok_eqb (a b : tok) : bool :=
@@ -62,6 +64,22 @@ Fixpoint zip_oracles (log : list (list frame)) (os : list frame) : list (list fr
 
 Definition b2z (b : bool) : Z := if b then 1 else 0.
 
+(** the redo as the harness performs it: like [replay_run], but EVALSHA is answered by
+    handle_evalsha_command against the EMPTY script cache of the second server *)
+Fixpoint redo_run (now : Z) (s : server) (log : list (list frame * option frame)) (acc : list frame)
+  : list frame * server :=
+  match log with
+  | [] => (rev acc, s)
+  | (parts, o) :: r =>
+      let name := req_name (FArray parts) in
+      match (if beq name (bs "EVALSHA")
+             then h_evalsha now s replay_conn (conn_db s replay_conn) [] parts
+             else normal_command now s replay_conn (conn_db s replay_conn) parts o) with
+      | (rep, s') => redo_run now s' r (canon_reply name rep :: acc)
+      end
+  end.
+Definition dump_conn : Z := 2.
+
 Definition aof_op (s : server) (op : list tok) : option (list tok * server) :=
   match op with
   | TB name :: rest =>
@@ -81,9 +99,10 @@ Definition aof_op (s : server) (op : list tok) : option (list tok * server) :=
                                | TI n :: rt => fst (dec_frames (Z.to_nat n) rt [])
                                | _ => []
                                end in
-                match replay_run t replay_init (zip_oracles (aof_log s) oracles) [] with
+                match redo_run t replay_init (zip_oracles (aof_log s) oracles) [] with
                 | (reps, rs) =>
-                    match run_dump t s c dump [], run_dump t rs replay_conn dump [] with
+                    (* both dumps from connections of their own, in database 0 *)
+                    match run_dump t s c dump [], run_dump t (connect rs dump_conn) dump_conn dump [] with
                     | (live, s'), (repl, _) =>
                         let fl := flags live repl in
                         let agree := forallb (fun b => b) fl && (len live =? len repl) in
@@ -101,13 +120,8 @@ Definition aof_op (s : server) (op : list tok) : option (list tok * server) :=
       else if beq name (bs "AOFRESTART") then
         match rest with
         | TI c :: TI t :: TI k :: ft =>
-            match restart s with
-            | None => Some ([TI 0], {| s_dbs := s_dbs s; s_trk := s_trk s; s_conns := [];
-                                       s_password := s_password s; s_aof := s_aof s |})
-            | Some s0 =>
-                match run_dump t (connect s0 c) c (fst (dec_frames (Z.to_nat k) ft [])) [] with
-                | (reps, s') => Some (TI 1 :: enc_frames reps, s')
-                end
+            match run_dump t (connect (restart s) c) c (fst (dec_frames (Z.to_nat k) ft [])) [] with
+            | (reps, s') => Some (TI 1 :: enc_frames reps, s')
             end
         | _ => Some ([TB (bs "BADOP")], s)
         end
@@ -128,15 +142,23 @@ Definition aof_op (s : server) (op : list tok) : option (list tok * server) :=
   | _ => None
   end.
 
-Definition c11_op (sp : server * list (list bytes)) (op : list tok)
-  : list tok * (server * list (list bytes)) :=
-  match aof_op (fst sp) op with
-  | Some (o, s') => (o, (s', snd sp))
-  | None => srv_op2 sp op
+(** the AOF ops see the server only; a restart also empties the runner's outbox and the script
+    cache (both live in the process) *)
+Definition c11_op (st : lua_state) (op : list tok) : list tok * lua_state :=
+  match st with
+  | ((s, ob, pend), ca) =>
+      match aof_op s op with
+      | Some (o, s') =>
+          (o, match op with
+              | TB name :: _ => if beq name (bs "AOFRESTART") then ((s', [], []), []) else ((s', ob, pend), ca)
+              | _ => ((s', ob, pend), ca)
+              end)
+      | None => lua_op st op
+      end
   end.
-Fixpoint c11_ops (sp : server * list (list bytes)) (ops : list (list tok)) : list (list tok) :=
+Fixpoint c11_ops (st : lua_state) (ops : list (list tok)) : list (list tok) :=
   match ops with
   | [] => []
-  | op :: r => match c11_op sp op with (o, sp') => o :: c11_ops sp' r end
+  | op :: r => match c11_op st op with (o, st') => o :: c11_ops st' r end
   end.
-Definition run_c11 (ops : list (list tok)) : list (list tok) := c11_ops (init_server None, []) ops.
+Definition run_c11 (ops : list (list tok)) : list (list tok) := c11_ops ((init_server None, [], []), []) ops.
